@@ -82,7 +82,11 @@ def make_run(cfg):
 
     def run_fn(chooser):
         pool_small = cfg["pool"] == "full"
-        w = SchedWorld(chooser, servertype=cfg["server"], allow_ticks=False, max_idle_wakes=30, COMMTIMEOUT=cfg["timeout"],
+        watch = None
+        if cfg.get("watch") == "pool":
+            # line granularity inside the worker loop and the pool hand-off, on top of the message-level points
+            watch = S.watch_functions(svr_threads.Worker.run, svr_threads.Worker.process, svr_threads.Pool.process, svr_threads.Pool.notify_done)
+        w = SchedWorld(chooser, servertype=cfg["server"], allow_ticks=False, max_idle_wakes=30, watch=watch, COMMTIMEOUT=cfg["timeout"],
                        THREADPOOL_SIZE=(1 if pool_small else 4), THREADPOOL_SIZE_MIN=1)
         violations = []
         try:
@@ -97,6 +101,8 @@ def make_run(cfg):
 
             def witness():
                 try:
+                    if cfg.get("order") == "attacker-first":
+                        attacker_done.wait()      # the well-behaved client arrives just as the hostile connection is being cleaned up
                     p = client.Proxy("PYRO:obj@h:1")
                     p._pyroBind()
                     got["witness"].append(("ok", p.token("w1")))
@@ -246,6 +252,9 @@ def configs(quick):
 
 def run(ctx):
     cfgs = configs(ctx.quick)
+    for lab, ending in (("garbage.interrupt", "close"), ("I.trunc@-1", "reset")) if ctx.quick else (("garbage.interrupt", "close"), ("I.trunc@-1", "reset"), ("I.raises-unserialisable", "close"), ("C.trunc@39", "reset")):
+        cfgs.append({"server": "thread", "timeout": 0.0, "pool": "roomy", "stream": lab, "phase": "first" if not lab.startswith("I.") else "after-handshake", "ending": ending,
+                     "order": "attacker-first", "watch": "pool", "p": 1, "r": 1 if ctx.quick else 2, "horizon": 6000})
     stats = explore_parallel(ctx, task, cfgs, lambda c: c["p"], lambda c: c["r"])
     ns = len(attack_streams(ctx.quick))
     cov = coverage_from_stats(
